@@ -392,11 +392,11 @@ def run_case(ctx, rng, job):
                             got, want = flat(t1), flat(o.__provides__)
                         else:
                             want = exp
-                        if got != want:
+                        if sorted(got) != sorted(want):
                             ctx.violation('declaration-naming-a-class-differs',
                                           {'cls': cname, 'named': other, 'proto': p, 'when': 'after ' + how, 'what': label,
                                            'got': got, 'expected': want})
-                    if flat(l1) != flat(o.__provides__):
+                    if sorted(flat(l1)) != sorted(flat(o.__provides__)):
                         ctx.violation('declaration-naming-a-class-differs',
                                       {'cls': cname, 'named': other, 'proto': p, 'when': 'after ' + how, 'what': 'loaded-later-declaration',
                                        'got': flat(l1), 'expected': flat(o.__provides__)})
@@ -457,12 +457,14 @@ def run_case(ctx, rng, job):
                 ctx.ev()
                 ctx.count('roundtrips[class-provides-under-a-declaring-metaclass]')
                 cp = mm.KMeta.__provides__
+                # (as sets: what the metaclass implies by now is left out of the rebuilt declaration's own bases, which can
+                #  change the order of the same interfaces - the statement promises the same interfaces, not their order)
                 try:
                     u = pickle.loads(pickle.dumps(cp, p))
                     got = flat(u)
                 except Exception as e:
                     got = repr(e)
-                if got != flat(cp):
+                if isinstance(got, str) or sorted(got) != sorted(flat(cp)):
                     ctx.violation('class-provides-differs', {'cls': 'KMeta', 'when': when, 'proto': p, 'got': got, 'expected': flat(cp)},
                                   mechanism='classprovides_reduce_unstripped')
             classImplementsOnly(mm.Meta, i2)
